@@ -152,6 +152,13 @@ pub fn guard<T>(api: &'static str, f: impl FnOnce() -> T) -> Result<T, PanicInfo
     GUARD_DEPTH.with(|d| d.set(d.get() + 1));
     let r = catch_unwind(AssertUnwindSafe(f));
     GUARD_DEPTH.with(|d| d.set(d.get() - 1));
+    if api == "take_action" || api == "preview+apply" {
+        // the decoys also take the step right AFTER the monitored state did (what they leave behind is then
+        // newer than what the monitored step left)
+        let saved = LAST_PANIC.with(|p| p.borrow_mut().take());
+        decoy_pre(api);
+        LAST_PANIC.with(|p| *p.borrow_mut() = saved);
+    }
     match r {
         Ok(v) => Ok(v),
         Err(_) => {
